@@ -282,9 +282,13 @@ func runWorker(p Prop, seed uint64, tier string, from, stride, count int, deadli
 	kept := map[string]int{}
 	hashes := map[uint64]struct{}{}
 	states := map[uint64]struct{}{}
+	progress := os.Getenv("VERIF_PROGRESS_FILE")
 	for i := from; i < count; i += stride {
 		if deadlineMs > 0 && time.Now().UnixMilli() > deadlineMs {
 			break
+		}
+		if progress != "" {
+			os.WriteFile(progress, []byte(strconv.Itoa(i)), 0o644)
 		}
 		rs := sim.RunSeed(seed, uint64(i))
 		ch := sim.NewChoices(rs)
@@ -447,12 +451,15 @@ func batch(p Prop, seed uint64, tier string, count int, budget float64, workers 
 	errs := make([]error, workers)
 	stderrs := make([]string, workers)
 	doneCh := make(chan int, workers)
+	progDir, _ := os.MkdirTemp("", "verif-progress-")
+	defer os.RemoveAll(progDir)
 	for w := 0; w < workers; w++ {
 		w := w
 		go func() {
 			cmd := exec.Command(self, "-worker", "-tier", tier, "-from", strconv.Itoa(w), "-stride", strconv.Itoa(workers),
 				"-count", strconv.Itoa(count), "-deadline", strconv.FormatInt(deadline, 10), "-verif", verifDir)
-			cmd.Env = append(os.Environ(), "VERIF_SEED="+strconv.FormatUint(seed, 10), "GOMAXPROCS=2")
+			cmd.Env = append(os.Environ(), "VERIF_SEED="+strconv.FormatUint(seed, 10), "GOMAXPROCS=2",
+				"VERIF_PROGRESS_FILE="+filepath.Join(progDir, strconv.Itoa(w)))
 			var eb strings.Builder
 			cmd.Stderr = &eb
 			b, err := cmd.Output()
@@ -467,11 +474,43 @@ func batch(p Prop, seed uint64, tier string, count int, budget float64, workers 
 	for i := 0; i < workers; i++ {
 		<-doneCh
 	}
+	var crashes []int
 	for w, err := range errs {
 		if err != nil {
-			fmt.Fprintf(os.Stderr, "worker %d failed: %v\n%s\n", w, err, stderrs[w])
+			// a worker died.  If the Go runtime killed it (memory fault, fatal
+			// error) while executing the code under test, that is a finding about
+			// the run it was executing, provided it repeats in a fresh process.
+			if strings.Contains(stderrs[w], "WATCHDOG") || !(strings.Contains(stderrs[w], "fatal error:") || strings.Contains(stderrs[w], "unexpected signal") || strings.Contains(stderrs[w], "goroutine ")) {
+				fmt.Fprintf(os.Stderr, "worker %d failed: %v\n%s\n", w, err, tail(stderrs[w], 3000))
+				return 2
+			}
+			b, rerr := os.ReadFile(filepath.Join(progDir, strconv.Itoa(w)))
+			idx, cerr := strconv.Atoi(strings.TrimSpace(string(b)))
+			if rerr != nil || cerr != nil {
+				fmt.Fprintf(os.Stderr, "worker %d crashed and left no progress record: %v\n%s\n", w, err, tail(stderrs[w], 3000))
+				return 2
+			}
+			crashes = append(crashes, idx)
+			outs[w] = workerOut{}
+		}
+	}
+	crashExit := 0
+	for _, idx := range crashes {
+		if !crashesAgain(self, seed, tier, idx) {
+			fmt.Fprintf(os.Stderr, "INFRASTRUCTURE: a worker process crashed in run %d but the crash does not repeat in a fresh process\n", idx)
 			return 2
 		}
+		rs := sim.RunSeed(seed, uint64(idx))
+		ch := sim.NewChoices(rs)
+		scb, _ := json.Marshal(p.Generate(ch.Rng(), tier, idx))
+		rp := Replay{Property: p.ID(), Seed: seed, RunIndex: idx, Tier: tier, Class: "process-crash", Scenario: scb, LiftInfo: p.Describe().LiftInfo,
+			Detail: "the code under test brought the process down (memory fault or fatal runtime error) in this run; replay re-executes run " + strconv.Itoa(idx) + " of batch seed " + strconv.FormatUint(seed, 10) + " in a child process"}
+		os.MkdirAll(filepath.Join(verifDir, "replays"), 0o755)
+		path := filepath.Join(verifDir, "replays", fmt.Sprintf("%s-%d-%d-crash.json", p.ID(), seed, idx))
+		b, _ := json.MarshalIndent(rp, "", " ")
+		os.WriteFile(path, b, 0o644)
+		fmt.Printf("VIOLATION property=%s replay=%s\n  class=process-crash run=%d: %s\n", p.ID(), path, idx, rp.Detail)
+		crashExit = 1
 	}
 	// merge
 	tot := workerOut{Faults: map[string]int{}, FaultRuns: map[string]int{}, Probes: map[string]int{}, Counters: map[string]int{}, VioCount: map[string]int{}, KnownCount: map[string]int{}, Obs: map[string]int{}}
@@ -519,8 +558,11 @@ func batch(p Prop, seed uint64, tier string, count int, budget float64, workers 
 
 	// violations: minimise, replay-verify, match against known findings
 	known := loadKnown(p.ID())
-	exit := 0
+	exit := crashExit
 	var reported []map[string]any
+	for _, idx := range crashes {
+		reported = append(reported, map[string]any{"class": "process-crash", "run_index": idx, "replay": "yes"})
+	}
 	knownHits := map[string]int{}
 	perClass := map[string]int{}
 	minDeadline := time.Now().Add(150 * time.Second)
@@ -675,6 +717,26 @@ func batch(p Prop, seed uint64, tier string, count int, budget float64, workers 
 	return exit
 }
 
+func tail(s string, n int) string {
+	if len(s) > n {
+		return s[len(s)-n:]
+	}
+	return s
+}
+
+// crashesAgain re-executes one run of a batch in a child process and reports
+// whether the Go runtime kills it again.
+func crashesAgain(self string, seed uint64, tier string, idx int) bool {
+	cmd := exec.Command(self, "-one", strconv.Itoa(idx), "-tier", tier, "-verif", verifDir)
+	cmd.Env = append(os.Environ(), "VERIF_SEED="+strconv.FormatUint(seed, 10))
+	out, err := cmd.CombinedOutput()
+	if err == nil {
+		return false
+	}
+	o := string(out)
+	return strings.Contains(o, "fatal error:") || strings.Contains(o, "unexpected signal") || strings.Contains(o, "goroutine ")
+}
+
 func doReplay(p Prop, path string) int {
 	b, err := os.ReadFile(path)
 	if err != nil {
@@ -685,6 +747,15 @@ func doReplay(p Prop, path string) int {
 	if err := json.Unmarshal(b, &rp); err != nil {
 		fmt.Fprintf(os.Stderr, "%v\n", err)
 		return 2
+	}
+	if rp.Class == "process-crash" {
+		self, _ := os.Executable()
+		if crashesAgain(self, rp.Seed, rp.Tier, rp.RunIndex) {
+			fmt.Printf("VIOLATION property=%s replay=%s\n  class=process-crash: %s\n", p.ID(), path, rp.Detail)
+			return 1
+		}
+		fmt.Printf("replay %s: run %d no longer brings the process down\n", path, rp.RunIndex)
+		return 0
 	}
 	sc, err := p.Decode(rp.Scenario)
 	if err != nil {
